@@ -5,7 +5,7 @@
     computes exactly the documented transclusion rule, stated here without
     fuel, path or passes. *)
 From Coq Require Import List NArith ZArith Bool Arith Lia.
-From WTP Require Import Base.Str Proofs.StrProofs Model.ArgViews Model.Expand Proofs.ExpandProofs Model.FlatCall.
+From WTP Require Import Base.Str Proofs.StrProofs Model.ArgViews Model.ParserFns Model.Expand Proofs.ExpandProofs Model.FlatCall.
 Import ListNotations.
 Open Scope N_scope.
 
@@ -219,7 +219,7 @@ Section Flat.
         | PfIfeq =>
           match ex (argn 0%nat), ex (argn 1%nat) with
           | Some x, Some y =>
-            option_map add_newline (if str_eqb (codes x) (codes y) && forallb is_ch x && forallb is_ch y
+            option_map add_newline (if mw_equal (codes x) (codes y) && forallb is_ch x && forallb is_ch y
                                     then ex (argn 2%nat) else
                                     if str_eqb (codes x) (codes y) then None else ex (argn 3%nat))
           | _, _ => None
@@ -785,6 +785,80 @@ Section Flat.
       reflexivity.
     - assert (Hn := nth_plain more 0 Hm).
       rewrite (expand_recurse_plain pfnames lib opts _ Hn) by (assert (L := nth_length_le more 0); lia).
+      reflexivity.
+  Qed.
+
+  (** #ifeq with plain arguments (C04): {{#ifeq: x | y | a | b}} is a when x and y, trimmed, are equal (ParserFns.mw_equal:
+      as numbers when both are numbers, else as text), else b. *)
+  Notation ifeq_head := FlatCall.ifeq_head.
+  Notation ifeq_result := FlatCall.ifeq_result.
+
+  Lemma strip_ifeq_head cond : strip_i (ifeq_head ++ cond) = ifeq_head ++ rstrip_i cond.
+  Proof.
+    unfold strip_i. assert (Hl : lstrip_i (ifeq_head ++ cond) = ifeq_head ++ cond) by reflexivity. rewrite Hl.
+    unfold rstrip_i. rewrite rev_app_distr, lstrip_i_app.
+    destruct (lstrip_i (rev cond)) eqn:E.
+    - cbn. reflexivity.
+    - rewrite rev_app_distr, rev_involutive. reflexivity.
+  Qed.
+
+  Lemma str_eqb_codes_plain x y : plain x = true -> plain y = true -> str_eqb (codes x) (codes y) = true -> x = y.
+  Proof.
+    intros Hx Hy H. apply str_eqb_eq in H. rewrite <- (plain_chars_codes x Hx), <- (plain_chars_codes y Hy), H. reflexivity.
+  Qed.
+
+  Theorem ifeq_plain stk ea x more :
+    (length stk < 100)%nat -> plain x = true -> forallb plain more = true -> o_parserfns opts = true ->
+    exists F, forall fuel, (F <= fuel)%nat ->
+      expand_T fuel stk ea ((ifeq_head ++ x) :: more) = Some (ifeq_result x more).
+  Proof.
+    intros Hdepth Hc Hm Hpf.
+    exists (length x + fold_right (fun a m => (length a + m)%nat) 0%nat more + 20)%nat.
+    intros fuel Hf. destruct fuel as [|f]; [lia|]. destruct f as [|f']; [lia|].
+    rewrite expand_T_S. replace (Nat.leb 100 (length stk)) with false by (symmetry; apply Nat.leb_gt; exact Hdepth).
+    assert (Hp : plain (ifeq_head ++ x) = true) by (rewrite plain_app, Hc; reflexivity).
+    rewrite (expand_recurse_plain pfnames lib opts _ Hp) by (rewrite app_length; cbn; lia).
+    cbv beta iota zeta. rewrite strip_ifeq_head.
+    assert (Hcodes : codes (ifeq_head ++ rstrip_i x) = 35 :: 105 :: 102 :: 101 :: 113 :: 58 :: codes (rstrip_i x)) by reflexivity.
+    rewrite Hcodes. cbn [index_of].
+    replace (35 =? 58) with false by reflexivity. replace (105 =? 58) with false by reflexivity.
+    replace (102 =? 58) with false by reflexivity. replace (101 =? 58) with false by reflexivity.
+    replace (113 =? 58) with false by reflexivity. replace (58 =? 58) with true by reflexivity.
+    cbv beta iota. cbn [firstn].
+    assert (Hcanon : Expand.canon_pf pfnames [35; 105; 102; 101; 113] = [35; 105; 102; 101; 113]).
+    { unfold Expand.canon_pf. cbn [collapse_ws_us is_space N.eqb orb]. destruct (in_names _ pfnames); reflexivity. }
+    rewrite Hcanon.
+    assert (Hcl : Expand.classify_pf pfnames [35; 105; 102; 101; 113] = PfIfeq) by reflexivity. rewrite Hcl.
+    cbn [skipn FlatCall.ifeq_head chars s_ifeq map app].
+    rewrite expand_pf_S. rewrite Hpf. cbn [negb].
+    set (c0 := lstrip_i (rstrip_i x)).
+    assert (Hc0 : plain c0 = true) by (apply plain_lstrip, plain_rstrip; exact Hc).
+    assert (Lc0 : (length c0 <= length x)%nat).
+    { unfold c0, rstrip_i. assert (Ll : forall y, (length (lstrip_i y) <= length y)%nat).
+      { induction y as [|z y IHy]; [cbn; lia|]. cbn [lstrip_i]. destruct (sp_item z); cbn; lia. }
+      etransitivity; [apply Ll|]. rewrite rev_length. etransitivity; [apply Ll|]. rewrite rev_length. lia. }
+    cbn [nth].
+    rewrite (expand_recurse_plain pfnames lib opts c0 Hc0) by lia.
+    assert (Hn0 := nth_plain more 0 Hm).
+    rewrite (expand_recurse_plain pfnames lib opts _ Hn0) by (assert (L := nth_length_le more 0); lia).
+    cbn [option_map].
+    assert (Hstrip : strip_i c0 = strip_i x).
+    { unfold c0, strip_i. rewrite lstrip_idem, lstrip_rstrip_comm, rstrip_idem. reflexivity. }
+    rewrite Hstrip.
+    assert (Hsx : plain (strip_i x) = true) by (apply plain_strip; exact Hc).
+    assert (Hsy : plain (strip_i (nth 0 more [])) = true) by (apply plain_strip; exact Hn0).
+    unfold FlatCall.ifeq_result.
+    assert (Hpl : forall e, plain e = true -> forallb is_ch e = true) by (intros e He; exact He).
+    rewrite (Hpl _ Hsx), (Hpl _ Hsy), andb_true_r, andb_true_r.
+    destruct (mw_equal (codes (strip_i x)) (codes (strip_i (nth 0 more [])))) eqn:Eq.
+    - assert (Hn := nth_plain more 1 Hm).
+      rewrite (expand_recurse_plain pfnames lib opts _ Hn) by (assert (L := nth_length_le more 1); lia).
+      reflexivity.
+    - assert (Hne : str_eqb (codes (strip_i x)) (codes (strip_i (nth 0 more []))) = false).
+      { unfold mw_equal in Eq. apply orb_false_iff in Eq. exact (proj1 Eq). }
+      rewrite Hne.
+      assert (Hn := nth_plain more 2 Hm).
+      rewrite (expand_recurse_plain pfnames lib opts _ Hn) by (assert (L := nth_length_le more 2); lia).
       reflexivity.
   Qed.
 End Flat.
